@@ -185,6 +185,18 @@ def frag(kind):
     return F
 
 
+def two_paragraphs(files):
+    """every tracer comment gets a second paragraph (word MORE_<tracer>), so that summaries carry a 'Read more' link"""
+    import re
+
+    out = {}
+    for rel, text in files.items():
+        if rel.endswith(".f90"):
+            text = re.sub(r"(?m)^([ \t]*)!! (TR\w+\d)[ \t]*$", lambda m: f"{m.group(1)}!! {m.group(2)}\n{m.group(1)}!!\n{m.group(1)}!! MORE_{m.group(2)}", text)
+        out[rel] = text
+    return out
+
+
 OPTIONS = {"extra-files": dict(extra_filetypes=[dict(extension="yml", comment="#"), dict(extension="h", comment="//")])}
 
 
@@ -210,6 +222,7 @@ def run_project(st: Stats, combo, order):
     files = {}
     for k in combo:
         files.update(frag(k))
+    files = two_paragraphs(files)
     names = sorted(files)
     perm = names if order == 0 else list(reversed(names))
     fordrun.FILE_ORDER = lambda fl: sorted(fl, key=lambda p: perm.index(str(p)[str(p).index("src/"):]))
@@ -295,6 +308,24 @@ def run_project(st: Stats, combo, order):
                 bad += 1
                 st.violation("page-at-url-documents-another-entity", stratum, dict(feats, coll=coll, name_lower=e.name.lower() == "dup"), inp,
                              dict(entity=f"{coll}:{e.name}", url=url, tracer=words[:1], found=bool(pg)), "the entity's tracer on the page at its URL")
+        # 3b. links baked into the documentation text ("Read more" behind a summary) lead to the page of that very entity
+        import posixpath
+        import re as _re
+
+        for rel, pg in site.pages.items():
+            for m in _re.finditer(r'<a href="([^"]+)"[^>]*>\s*<emph>Read more', pg.raw):
+                before = pg.raw[max(0, m.start() - 400): m.start()]
+                trs = _re.findall(r"\bTR\w+\d\b", before)
+                if not trs:
+                    continue
+                tr = trs[-1]
+                target = posixpath.normpath(posixpath.join(posixpath.dirname(rel), m.group(1).split("#")[0]))
+                tp = site.pages.get(target)
+                if tp is None or ("MORE_" + tr) not in tp.text:
+                    bad += 1
+                    st.violation("read-more-link-leads-to-another-entity", stratum, dict(feats, page_dir=rel.split("/")[0]), inp,
+                                 dict(page=rel, href=m.group(1), summary_of=tr, target_exists=tp is not None), f"a page containing MORE_{tr}")
+                    break
         # 4. copied sources
         by_name = {}
         for f in list(r.project.files) + list(r.project.extra_files):
